@@ -6,6 +6,7 @@ import (
 	"crypto/ed25519"
 	"crypto/rsa"
 	"crypto/sha256"
+	"encoding/hex"
 	"encoding/json"
 	"errors"
 	"fmt"
@@ -40,6 +41,12 @@ type job struct {
 	Sizes []int    `json:"sizes"`
 	Mixes []string `json:"mixes"`
 	Full  int      `json:"full"` // GOMAXPROCS outside the measured phase
+
+	// short children that repeat the standard burst under an environment setting
+	Env        []string `json:"env,omitempty"`         // NAME=VALUE added to the child's environment
+	PassesHex  []string `json:"passes_hex,omitempty"`  // shared passphrase of round no: PassesHex[no % len] (hex: may hold bytes >= 0x80)
+	ForceFirst []string `json:"force_first,omitempty"` // template of goroutine g's first operation: ForceFirst[g % len]
+	Short      bool     `json:"short,omitempty"`       // no end-of-child stages
 }
 
 type objOut struct {
@@ -111,6 +118,7 @@ type world struct {
 	ei  *agessh.Ed25519Identity
 	ri  *agessh.RSAIdentity
 
+	curPass string        // the shared passphrase of the current round
 	warmRec age.Recipient // unshared, used alone by the warm-up
 	hk      hkeys
 	hetero  map[string][]*hfile // heterogeneous-header files per identity kind
@@ -175,7 +183,8 @@ func newWorld(seed int64) *world {
 	w.e1, w.e2 = keys.LoadEd("ed1"), keys.LoadEd("ed2")
 	w.r1, w.r2 = keys.LoadRSA("rsa1"), keys.LoadRSA("rsa2")
 	w.ref["X"], w.ref["E"], w.ref["R"] = w.x1.Ref, w.e1.Ref, w.r1.Ref
-	w.ref["S"] = refage.ScryptKey{Pass: pass1}
+	w.curPass = pass1
+	w.ref["S"] = refage.ScryptKey{Pass: w.curPass}
 
 	// files no shared identity can open (built by the reference, once)
 	rng := mon.NewRNG(seed, "c20/wrongfiles")
@@ -260,11 +269,11 @@ func (w *world) fresh(no int) {
 		w.ri = must(agessh.NewRSAIdentity(bareRSA(w.r1.Priv)))
 	}
 	w.ids["Xi"], w.ids["Ei"], w.ids["Ri"] = w.xi, w.ei, w.ri
-	w.ids["Si"] = keys.ScryptIdentity(pass1, 0)
+	w.ids["Si"] = keys.ScryptIdentity(w.curPass, 0)
 
 	w.rec["Xr"] = w.x1.Recipient()
 	w.rec["Xd"] = w.xi.Recipient()
-	w.rec["Sr"] = keys.ScryptRecipient(pass1, scryptLogN)
+	w.rec["Sr"] = keys.ScryptRecipient(w.curPass, scryptLogN)
 	if strings.HasPrefix(w.prov["Ed25519Recipient"], "agessh.Parse") {
 		w.rec["Er"] = w.e1.Recipient()
 	} else {
@@ -334,7 +343,7 @@ func (w *world) buildFile(party string, pt []byte, rng *rand.Rand) []byte {
 	case "X2":
 		st, err = refage.X25519Wrap(fk, w.x2.Public, mon.Bytes(rng, 32))
 	case "S1":
-		st = refage.ScryptWrap(fk, pass1, mon.Bytes(rng, 16), scryptLogN)
+		st = refage.ScryptWrap(fk, w.curPass, mon.Bytes(rng, 16), scryptLogN)
 	case "S2":
 		st = refage.ScryptWrap(fk, pass2, mon.Bytes(rng, 16), scryptLogN)
 	case "E1":
@@ -788,6 +797,15 @@ func runRound(w *world, jb *job, no, G, P, size int, mix string) *roundOut {
 		ByTmpl: map[string]int{}, ByKind: map[string]int{}, Variants: map[string]int{}, HeteroPairs: map[string]int{}, Obj: map[string]*objOut{}, ErrClasses: map[string]int{}}
 	label := fmt.Sprintf("c20/rep%d/round%d", jb.Rep, no)
 	rrng := mon.NewRNG(jb.Seed, label)
+	if len(jb.PassesHex) > 0 {
+		pb, _ := hex.DecodeString(jb.PassesHex[no%len(jb.PassesHex)])
+		if p := string(pb); p != "" && p != w.curPass {
+			w.curPass = p
+			w.ref["S"] = refage.ScryptKey{Pass: p}
+			w.blkFiles = map[string][]byte{}
+			w.probes["S1"] = w.buildFile("S1", probePlain, mon.NewRNG(jb.Seed, label+"/probe"))
+		}
+	}
 	w.fresh(no + 7*jb.Rep)
 	ro.Prov = w.prov
 	pool := poolFor(mix)
@@ -827,6 +845,19 @@ func runRound(w *world, jb *job, no, G, P, size int, mix string) *roundOut {
 				k = []string{"X", "E", "R"}[rrng.Intn(3)]
 			}
 			op.hfiles = append(op.hfiles, pickHetero(w.hetero[k], rrng))
+		}
+	}
+
+	if len(jb.ForceFirst) > 0 {
+		byName := map[string]*tmpl{}
+		for _, t := range append(append(append([]*tmpl{}, encPool...), decPool...), wrongPool...) {
+			byName[t.name] = t
+		}
+		for g := 0; g < G; g++ {
+			if t := byName[jb.ForceFirst[g%len(jb.ForceFirst)]]; t != nil && t.het == "" {
+				plans[g][0].t = t
+				plans[g][0].hfiles = nil
+			}
 		}
 	}
 
@@ -1239,6 +1270,12 @@ func runChild(jobPath string) {
 				}
 			}
 		}
+	}
+	if jb.Short {
+		enc.Encode(&roundOut{Done: true, Rounds: no, Rep: jb.Rep})
+		bw.Flush()
+		f.Close()
+		os.Exit(0)
 	}
 	// tight-loop burst under the race detector (no perturbation, unknown-type fillers)
 	runtime.GOMAXPROCS(jb.Full)
